@@ -43,6 +43,9 @@ PrimeOK(e, m) ==
        [] e.op = "invert" -> IF x = Zero THEN ~e.out.some ELSE e.out.some /\ MulM(x, e.out.v, m) = One
        [] e.op = "batch_invert" -> IF x = Zero THEN e.out = Zero ELSE MulM(x, e.out, m) = One
        [] e.op = "sqrt" -> IF IsSquareM(x, m) THEN e.out.some /\ Lt(e.out.v, m) /\ MulM(e.out.v, e.out.v, m) = x ELSE ~e.out.some
+       \* the quadratic-residue test: 0 for zero, 1 for non-zero squares, -1 for non-squares (zero counts as a residue)
+       [] e.op = "legendre" -> e.out = (IF x = Zero THEN 0 ELSE IF IsSquareM(x, m) THEN 1 ELSE -1)
+       [] e.op = "qr_flags" -> e.out.residue = IsSquareM(x, m) /\ e.out.non_residue = ~IsSquareM(x, m)
        [] e.op = "repr_roundtrip" -> /\ e.out.some /\ e.out.v = x
                                      /\ Trim(IF e.out.le THEN e.out.bytes ELSE Rev(e.out.bytes)) = x
        [] e.op = "from_repr" -> IF Lt(e.ins[1], m) THEN e.out.some /\ e.out.v = e.ins[1] ELSE ~e.out.some
@@ -83,6 +86,7 @@ QuadOK(e, m) ==
        [] e.op = "norm" -> e.out = QNorm(x, m)
        [] e.op = "mul_by_nonresidue" -> e.out = QMul(TowerOf(e.field).xi, x, m)
        [] e.op = "is_square" -> e.out = QIsSquare(x, m)
+       [] e.op = "legendre" -> e.out = (IF x = QZero THEN 0 ELSE IF QIsSquare(x, m) THEN 1 ELSE -1)
        [] e.op = "lex_largest" -> e.out = QLexLargest(x, m)
        \* c1 is compared first, then c0
        [] e.op = "cmp" -> e.out = (IF x = y THEN 0 ELSE IF Lt(x[2], y[2]) \/ (x[2] = y[2] /\ Lt(x[1], y[1])) THEN 0 - 1 ELSE 1)
